@@ -555,7 +555,7 @@ pub fn build(op: &Op, hs: &mut Handles) -> Ent {
             g.fru_text = arr::<20>(blob(1));
             g.timestamp = arr::<8>(blob(2));
             for extra in op.b.iter().skip(3) {
-                g.add_data(Box::new(acpi_tables::aml::BufferData::new(extra.clone())));
+                g.add_data(Box::new(RawAml(extra.clone())));
             }
             Ent::Ged(g)
         }
@@ -765,6 +765,14 @@ fn refs_str(hs: &mut Handles) -> String {
 }
 
 /// case: T oemid oemtable oemrev ctor ; op ; op …
+/// a user payload for `GenericErrorData::add_data`: its bytes, verbatim
+struct RawAml(Vec<u8>);
+impl acpi_tables::Aml for RawAml {
+    fn to_aml_bytes(&self, sink: &mut dyn acpi_tables::AmlSink) {
+        sink.vec(&self.0);
+    }
+}
+
 pub fn run_tbl(toks: &[&str]) -> String {
     let tname = toks[0];
     let oid = arr::<6>(&unhex(toks[1]));
